@@ -382,7 +382,7 @@ func lifeCall(sess *xmpp.Session, ctx context.Context, c reqCfg) (out lifeResult
 	case "SendIQ":
 		out.resp, err = sess.SendIQ(ctx, iq.Wrap(payload))
 	case "EncodeIQElement":
-		out.resp, err = sess.EncodeIQElement(ctx, payloadQ{}, iq)
+		out.resp, err = sess.EncodeIQElement(ctx, payloadQ{C: 0}, iq)
 	case "SendMessage":
 		out.resp, err = sess.SendMessage(ctx, msg.Wrap(payload))
 	case "SendPresenceElement":
@@ -454,7 +454,7 @@ var iwPark = []string{"sendresp.registered", "sendresp.select.before"}
 var iwNote = []string{"serve.iter"}
 
 type iwAction struct {
-	Op string `json:"op"` // write wgo ack nak close again snap
+	Op string `json:"op"` // write wgo ack nak close lclose again snap
 }
 
 type iwCase struct {
@@ -474,6 +474,7 @@ type iwRun struct {
 	aborted bool
 	broken  bool // a data packet failed: the buffered writer keeps that error
 	nwrites int
+	life    []string // cases of the response-life model observed on the way
 }
 
 func newIwRun() (*iwRun, error) {
@@ -517,6 +518,8 @@ func (x *iwRun) enabled(a iwAction) bool {
 		return x.wpos == "wait"
 	case "close":
 		return !x.closed
+	case "lclose":
+		return !x.closed && (x.wpos == "idle" || x.wpos == "ret")
 	case "again":
 		return x.wpos == "ret"
 	case "snap":
@@ -649,6 +652,50 @@ func (x *iwRun) do(a iwAction) {
 		if !regexp.MustCompile(`<iq[^>]*type=["']result["'][^>]*id=["']c1["']|<iq[^>]*id=["']c1["'][^>]*type=["']result["']`).Match(x.p.WaitQuiet(2*time.Millisecond, 200*time.Millisecond)) {
 			x.fail("C06/ibb-close/not-answered", "the peer's close request was not answered with a result")
 		}
+	case "lclose":
+		// the application closes the stream: flush, then the close request (a
+		// blocking call inside ibb); the peer answers; whatever Close returns, the
+		// reply must have been closed or the serve loop stays parked on it
+		done := make(chan error, 1)
+		go func() { done <- x.conn.Close() }()
+		var id string
+		deadline := time.Now().Add(watchdog)
+		for id == "" && time.Now().Before(deadline) {
+			if m := closeIQ.FindSubmatch(x.p.Written()); m != nil {
+				id = string(m[1])
+			} else {
+				time.Sleep(200 * time.Microsecond)
+			}
+		}
+		if id == "" {
+			x.fail("C06/ibb-close/close-not-sent", "Conn.Close did not send a close request")
+			return
+		}
+		if err := x.p.Send([]byte(fmt.Sprintf(`<iq type="result" id="%s" from="%s"/>`, id, peerFull))); err != nil {
+			x.fail("C06/ibb/serve-stall:not-reading", err.Error())
+			return
+		}
+		var cerr error
+		select {
+		case cerr = <-done:
+		case <-time.After(watchdog):
+			x.fail("C06/ibb-close/call-stuck", "Conn.Close did not return after its close request was answered")
+			return
+		}
+		if (cerr != nil) != x.broken {
+			x.fail("C06/ibb-close/wrong-outcome", fmt.Sprintf("Conn.Close returned %v (a data packet had failed before: %v)", cerr, x.broken))
+			return
+		}
+		if x.expect(x.serve, "C06/ibb-close/serve-stall:close-reply-not-closed", "C06/ibb-close/handler-panic", "Conn.Close has returned but the reply to its close request was not closed: the serve loop stays parked waiting for that response and reads nothing any more", "@serve.iter") == "" {
+			return
+		}
+		x.closed = true
+		x.label("CLocalClose")
+		x.life = append(x.life, "mkrlcase rl_code_raw [RClose] false 1%nat")
+		x.classes["local-close"] = true
+		if x.broken {
+			x.classes["local-close-after-refused-packet"] = true
+		}
 	case "again":
 		x.wpos = "idle"
 		x.label("WAgain")
@@ -708,6 +755,9 @@ func (x *runner) iwFinish(run *iwRun, acts []iwAction, class string) {
 		x.res.Fail(run.failKey, run.failWhat, cc)
 	} else {
 		x.iwEmit(run, acts, "final")
+		for _, t := range run.life {
+			x.life.Add(t, map[string]interface{}{"case": cc, "observed": "Conn.Close: reply closed once, serve loop released"})
+		}
 	}
 	run.stop()
 }
@@ -754,6 +804,7 @@ func (x *runner) iwWalk(r *hx.Rand, steps int) {
 		add("ack", 3)
 		add("nak", 1)
 		add("close", 2)
+		add("lclose", 1)
 		add("again", 4)
 		add("snap", 1)
 		tot := 0
@@ -788,6 +839,11 @@ var iwCorpus = [][]iwAction{
 	{{Op: "close"}, {Op: "write"}},
 	// ordinary order
 	{{Op: "write"}, {Op: "wgo"}, {Op: "ack"}, {Op: "again"}, {Op: "write"}, {Op: "wgo"}, {Op: "ack"}, {Op: "close"}},
+	// a refused data packet (the writer keeps that error), then the application closes:
+	// the reply to the close request must be closed whatever Close returns
+	{{Op: "write"}, {Op: "wgo"}, {Op: "nak"}, {Op: "lclose"}},
+	{{Op: "write"}, {Op: "wgo"}, {Op: "ack"}, {Op: "lclose"}, {Op: "again"}, {Op: "write"}},
+	{{Op: "lclose"}},
 }
 
 // ---------------------------------------------------------------------------
